@@ -375,3 +375,119 @@ class MoveMemrefDims_contract:
 
     def canary(sh, a, ret):
         check("canary: the dim is never replaced", a[0].results[0].replaced is None)
+
+
+# =====================================================================================
+# LoopHoistPureOperations: an op leaves a loop only together with availability of all its operands
+# =====================================================================================
+from xdsl.traits import Pure  # noqa: E402
+
+import snaxc.transforms.reuse_memref_allocs as rma  # noqa: E402
+
+
+class HOp(Operation):
+    """view of an arbitrary op: operands, one index result, its trait list"""
+
+    def __init__(self, operands=(), pure=True):
+        self._init_op(list(operands), [None], [IndexType()])
+        self.traits = [Pure()] if pure else []
+
+
+class AllocV(HOp):
+    """the whitelisted (not pure) kind: memref.alloc"""
+
+
+def level_of(spec):
+    """the deepest loop (1 = outermost) whose body or induction variable the value belongs to; 0 = defined before the nest"""
+    if spec in ("out", "farg"):
+        return 0
+    return int(spec[-1])
+
+
+HOIST_SHAPES = []
+for _d in (1, 2, 3):
+    _sites = ["out", "farg"] + [f"L{k}" for k in range(1, _d + 1)] + [f"iv{k}" for k in range(1, _d + 1)]
+    for _kind in ("pure", "whitelisted", "impure"):
+        HOIST_SHAPES.append(dict(depth=_d, kind=_kind, operands=(), in_if=False))
+        for _a in _sites:
+            HOIST_SHAPES.append(dict(depth=_d, kind=_kind, operands=(_a,), in_if=False))
+    for _a in _sites:
+        for _b in _sites:
+            if _a < _b:
+                HOIST_SHAPES.append(dict(depth=_d, kind="pure", operands=(_a, _b), in_if=(_d == 2)))
+
+
+def build_hoist_nest(sh):
+    d = sh["depth"]
+    fblock = Block([], [IndexType()])
+    out = HOp([])
+    bounds = [HOp([]) for _ in range(3)]
+    blocks = [None] + [Block([], [IndexType()]) for _ in range(d)]  # blocks[k]: body of loop k
+    defs = [None] + [HOp([blocks[k].args[0]]) for k in range(1, d + 1)]  # defs[k]: computed in the body of loop k, before the next loop
+
+    def value(spec):
+        if spec == "out":
+            return out.results[0]
+        if spec == "farg":
+            return fblock.args[0]
+        k = int(spec[-1])
+        return defs[k].results[0] if spec[0] == "L" else blocks[k].args[0]
+
+    cls = AllocV if sh["kind"] == "whitelisted" else HOp
+    main = cls([value(s) for s in sh["operands"]], sh["kind"] == "pure")
+    loops = [None] * (d + 2)
+    inner = [main]
+    if sh["in_if"]:
+        inner = [scf.IfOp(out.results[0], [], Region([Block([main, scf.YieldOp()])]), Region([Block([scf.YieldOp()])]))]
+    for k in range(d, 0, -1):
+        for o in [defs[k]] + inner + [scf.YieldOp()]:
+            blocks[k].add_op(o)
+        loops[k] = scf.ForOp(bounds[0].results[0], bounds[1].results[0], bounds[2].results[0], [], Region([blocks[k]]))
+        inner = [loops[k]]
+    for o in [out] + bounds + [loops[1]]:
+        fblock.add_op(o)
+    Region([fblock])
+    return main, loops
+
+
+@contract
+class LoopHoistPureOperations_contract:
+    """an op is taken out of a loop only if it is pure (or an allocation), and it is put in front of an ENCLOSING loop such
+    that every operand is available there: defined before that loop - not in its body, not in the body of any loop nested
+    in it, and not an induction variable of it or of a nested loop (nests of depth 1..3, operands from every level)"""
+    target = "snaxc.transforms.reuse_memref_allocs.LoopHoistPureOperations.match_and_rewrite"
+    shapes = HOIST_SHAPES
+    quick = lambda sh: sh["depth"] <= 2 or len(sh["operands"]) <= 1 or "L2" in sh["operands"] or "iv2" in sh["operands"]
+    native = False
+    total = True
+    permissive = True
+    compare_ret = False
+
+    def args(sh, sym):
+        main, loops = build_hoist_nest(sh)
+        return [main, loops]
+
+    def run(sh, a):
+        rw = PatternRewriter(a[0])
+        rma.LoopHoistPureOperations([AllocV]).match_and_rewrite(a[0], rw)
+        return rw.log
+
+    def ensures(sh, a, ret):
+        main, loops = a
+        d = sh["depth"]
+        check("at most one rewrite step, an insertion of the op itself", len(ret) <= 1 and all(e[0] == "insert_op" and len(e[1]) == 1 and e[1][0] is main for e in ret))
+        if len(ret) == 1:
+            pt = ret[0][2]
+            ks = [k for k in range(1, d + 1) if pt.anchor is loops[k]]
+            check("the op is re-inserted directly in front of one of the loops around it", pt.kind == "before" and len(ks) == 1)
+            check("only pure ops and allocations are hoisted", sh["kind"] in ("pure", "whitelisted"))
+            if len(ks) == 1:
+                k = ks[0]
+                for s in sh["operands"]:
+                    check(f"operand defined at {s}: available in front of loop {k} (defined before it)", level_of(s) < k)
+            check("the op was taken out of its block", getattr(main, "detached", False))
+        else:
+            check("not hoisted: nothing is rewritten", not getattr(main, "detached", False))
+
+    def canary(sh, a, ret):
+        check("canary: nothing is ever hoisted", len(ret) == 0 and sh["kind"] == "pure" and all(level_of(s) == 0 and s != "farg" for s in sh["operands"]))
